@@ -91,6 +91,28 @@ class PoolRun:
             "spawned": list(self.spawned),
         }
 
+    def apply_pair(self, e, c):
+        """Enqueue and, in the same turn of the event loop, cancel the task just accepted (its worker has not
+        taken a step yet).  Returns the two recorded events; nothing can be observed between them."""
+        deps = sorted(d for d in e["deps"] if d < self.n)
+        name = "task%d" % self.n
+
+        async def both():
+            tid = await self.sched.enqueue_task(name=name, script="task %d" % self.n, working_dir=self.wd,
+                                                time_limit=e["limit"] if e["limit"] else None, deps=[self.real(d) for d in deps])
+            self.tids_hint = tid
+            await self.sched.cancel_task(tid)
+            return tid
+
+        status, tid = self.call(both())
+        t = self.n
+        rec1 = {"e": "Enqueue", "deps": deps, "limit": e["limit"], "attrs": [], "t": t,
+                "tid_returned": self.index_of(tid) if status == "ok" else -1}
+        self.n += 1
+        rec1["obs"] = self.observe()
+        rec2 = {"e": "Cancel", "t": t, "atonce": True, "obs": self.observe()}
+        return [rec1, rec2]
+
     def apply(self, e):
         """Apply one generated event if it is applicable in the real pool; returns the
         recorded event (with observation) or None when skipped."""
@@ -140,10 +162,18 @@ def drive(item):
     run = PoolRun(scn["cores"])
     events = []
     try:
-        for e in scn["ev"]:
+        evs, k = list(scn["ev"]), 0
+        while k < len(evs):
+            e = evs[k]
+            nxt = evs[k + 1] if k + 1 < len(evs) else None
+            if e["e"] == "Enqueue" and not e["attrs"] and nxt is not None and nxt["e"] == "Cancel" and nxt["t"] == run.n:
+                events.extend(run.apply_pair(e, nxt))
+                k += 2
+                continue
             rec = run.apply(e)
             if rec is not None:
                 events.append(rec)
+            k += 1
         # drain: let every process end successfully and every timer fire, so that final states are observed
         for _ in range(200):
             alive = [t for t, p in run.procs.items() if p.returncode is None]
